@@ -66,6 +66,10 @@ type Call struct {
 type Fault struct {
 	Err     error
 	ZeroLen bool // Read returns (0, nil)
+	// Stall > 0: the call takes this long (virtual time) and then proceeds normally
+	Stall time.Duration
+	// Persist: the fault also applies to every later call of the same op on the same handle
+	Persist bool
 }
 
 // FaultKey addresses the K-th (1-based) call of Op on handle Handle (-1 = counted across the wire).
@@ -74,6 +78,9 @@ type FaultKey struct {
 	Op     string
 	K      int
 }
+
+// MaxEmissionsPerHandle stops a runaway sender (a run can legitimately emit at most 255 probes).
+const MaxEmissionsPerHandle = 600
 
 // FilterMode selects BPF emulation.
 type FilterMode int
@@ -123,6 +130,8 @@ type Handle struct {
 	curFilter                packets.PacketFilterType
 	opCount                  map[string]int
 	FirstReadAt              time.Time
+	// Overrun is set when the code under test wrote more than MaxEmissionsPerHandle packets.
+	Overrun bool
 	// User is free for scenarios (e.g. the flow bound to this handle).
 	User any
 }
@@ -170,6 +179,9 @@ func (w *Wire) fault(h *Handle, op string) (Fault, bool) {
 	}
 	if f, ok := w.Faults[FaultKey{hk, op, cnt}]; ok && h != nil {
 		w.Fired = append(w.Fired, FaultKey{hk, op, cnt})
+		if f.Persist {
+			w.Faults[FaultKey{hk, op, cnt + 1}] = f
+		}
 		return f, true
 	}
 	if f, ok := w.Faults[FaultKey{-1, op, w.wireOps[op]}]; ok {
@@ -248,9 +260,21 @@ func (s *simSink) WriteTo(buf []byte, addrPort netip.AddrPort) error {
 		h.UseAfterClose = append(h.UseAfterClose, "write")
 	}
 	if f, ok := w.fault(h, "write"); ok {
-		h.Calls = append(h.Calls, Call{Op: "write", At: now, Err: errStr(f.Err)})
+		if f.Stall > 0 {
+			w.mu.Unlock()
+			time.Sleep(f.Stall)
+			w.mu.Lock()
+			now = time.Now()
+		} else {
+			h.Calls = append(h.Calls, Call{Op: "write", At: now, Err: errStr(f.Err)})
+			w.mu.Unlock()
+			return f.Err
+		}
+	}
+	if h.opCount["write"] > MaxEmissionsPerHandle {
+		h.Overrun = true
 		w.mu.Unlock()
-		return f.Err
+		return errors.New("simnet: emission cap exceeded (runaway sender)")
 	}
 	w.tick++
 	e := &Emission{Seq: len(w.Emissions), Tick: w.tick, Handle: h.Idx, At: now, Bytes: append([]byte(nil), buf...), Dst: addrPort}
